@@ -5,7 +5,7 @@ R1 the search space is {0..P}^n (0 = unassigned) and every matching goes through
    student's row with that project, None when the student does not find it acceptable) and is_valid;
 R2 is_valid = definition of a valid matching incl. the closure rule, as a decision table over the order types of
    (count, lower quota, upper quota) x pc, and no attribute of an absent pair is touched;
-R3 the per-matching update of the nine printed accumulators, executed symbolically by cases (valid?, size vs best
+R3 the per-matching update of the nine printed accumulators, evaluated abstractly by cases (valid?, size vs best
    size, statistic vs best-so-far) equals the specified fold (maximum size; optimum over maximum-size matchings, reset
    when the size grows; optimum over all valid matchings), whatever the order of the statements, helper extraction,
    if/elif, early continue;
